@@ -255,6 +255,29 @@ def r3(run: Run, src):
               f'the call-syntax pattern {call_rx.pattern!r} does not admit every identifier character before "(" (lower-case: '
               f'{LOWER <= cchars}, upper-case: {UPPER <= cchars}, underscore: {"_" in cchars}): eval( / os.system( would not be seen',
               fact='identifier class incl. lower case, directly followed by (', loc=loc_of(fi.module.path, call_rx.node))
+    # ... followed by a parenthesised argument list of ANY content: what stands between "(" and the closing ")" may only
+    # exclude ")" itself (and the line break that "." excludes)
+    def argument_list(call):
+        rx = Regex(call.pattern)
+        items = list(rx.tree)
+        if len(items) < 4 or not (items[1][0] is sre_c.LITERAL and chr(items[1][1]) == '('):
+            return None
+        body, close = items[2], items[3]
+        if body[0] not in (sre_c.MAX_REPEAT, sre_c.MIN_REPEAT) or not (close[0] is sre_c.LITERAL and chr(close[1]) == ')'):
+            return None
+        lo, hi, inner = body[1]
+        return lo, hi, rx.lang(inner).chars
+    al = argument_list(call_rx)
+    if al is None:
+        raise AnalysisError('C19.R3', 'the call-syntax pattern is not of the form <identifier>+ \\( <anything>* \\)')
+    lo_, hi_, achars = al
+    probe = set('(["\'+-*/, =.:;{}<>') | set('abcxyzABCXYZ0123456789_ ')
+    missing = sorted(probe - set(achars))
+    run.check(lo_ == 0 and hi_ == MAXREPEAT and not missing, 'C19.R3', 'suspicious/call-arguments', 'argument-list-restricted',
+              f'the call-syntax pattern {call_rx.pattern!r} only accepts an argument list of {lo_}..{"any number of" if hi_ == MAXREPEAT else hi_} '
+              f'characters that excludes {missing[:8]}: a call whose arguments contain such a character (eval((1+2)*3), '
+              f'print((1, 2))) is not recognised as call syntax and its cell is not reported',
+              fact='any characters up to the closing parenthesis', loc=loc_of(fi.module.path, call_rx.node))
     run.check(call_rx.method == 'findall', 'C19.R3', 'suspicious/call-findall', 'not-findall', 'fragments are not collected with findall',
               fact='findall', loc=loc)
     run.check(echars <= UPPER and len(echars) > 0, 'C19.R3', 'suspicious/exemption-pattern', 'exemption-class',
